@@ -263,7 +263,7 @@ func runScript(c *ctx, id string, cfg runCfg, ss []Stmt, style sqlStyle, splits 
 	c.emit(id, "script", cfg.sexp(), stmtsSexp(ss),
 		obs("err", e1, "state", st1, "stateAfterOutputs", stAfterOut, "dump", dump, "dumpDown", dumpDown, "hash", hash, "inv", inv,
 			"errSplit", e2, "splitEq", b2s(st1 == st2), "errSplit2", e3, "split2Eq", b2s(st1 == st3),
-			"reject", rej, "rejectUnchanged", b2s(stAfter == st1)))
+			"reject", rej, "rejectUnchanged", b2s(stAfter == stAfterOut)))
 	if len(ss) > 1 {
 		c.nontrivial(cfg.sexp() + stmtsSexp(ss))
 	}
